@@ -38,14 +38,17 @@ def body(c):
         "unknowns solved by two vnacal_new_t on different grids; refused "
         "multi-cell standards through parameter chains) and 120 shape histories "
         "(8 types x square / rectangular dimensions x 1..3 frequencies, complex "
-        "z0, every accessor read); every public call is one event whose result, "
+        "z0, every accessor read) and %d state histories (error model x "
+        "incomplete S on T16/U16, set_m_error refusals / clear / set again, "
+        "string arguments aliasing the library's own name / filename); every "
+        "public call is one event whose result, "
         "errno, error-callback record and the full getter projection of every "
         "live vnacal_t must be explained by CalStore!Do; distinct_nontrivial "
         "counts episodes with pairwise different event sequences in which a "
         "calibration was stored or deleted or a user handle deleted."
         % (stats.get("exh_cases", 0), stats.get("exh_depth", 0),
            stats.get("rand_cases", 0), stats.get("rand_len", 0),
-           stats.get("bulk_cases", 0)))
+           stats.get("bulk_cases", 0), stats.get("state_cases", 0)))
     c.cov["trusted_base"] = [
         "TLC 1.8", "CalStore.tla transcription of vnacal(3), "
         "vnacal_parameter(3), vnacal_new(3)", "PropDoc.tla",
